@@ -282,6 +282,11 @@ fn run_suspense(items: &[Item], events: &[String]) -> (String, Option<String>) {
 }
 
 fn run_resource(dep0: u32, fb: Option<u32>, events: &[String]) -> (String, Option<String>) {
+    run_resource_opt(dep0, fb, false, events)
+}
+
+/// `fl`: a subscriber of `is_loading` that moves an odd dependency on to the next value whenever a load is announced
+fn run_resource_opt(dep0: u32, fb: Option<u32>, fl: bool, events: &[String]) -> (String, Option<String>) {
     PANIC_LOG.with(|p| p.borrow_mut().clear());
     let rt = tokio::runtime::Builder::new_current_thread().build().unwrap();
     let local = tokio::task::LocalSet::new();
@@ -304,6 +309,14 @@ fn run_resource(dep0: u32, fb: Option<u32>, events: &[String]) -> (String, Optio
                     let k = { let mut t = txs.borrow_mut(); t.push(Some(tx)); t.len() as u32 };
                     async move { let _ = rx.await; (k, v) }
                 })));
+                if fl {
+                    let r = *res.as_ref().unwrap();
+                    create_effect(move || {
+                        if r.is_loading() && d.get_untracked() % 2 == 1 {
+                            d.set(d.get_untracked() + 1);
+                        }
+                    });
+                }
                 if let Some(c) = fb {
                     // a subscriber of the VALUE only (the handle is taken outside the effect, untracked) that
                     // reacts to a delivery by writing the dependency, once
@@ -347,7 +360,14 @@ fn run_resource(dep0: u32, fb: Option<u32>, events: &[String]) -> (String, Optio
             }));
             if e == "x" { alive = false; }
             else if alive {
-                if let Some(v) = e.strip_prefix('w') { started += 1; latest_dep = v.parse().unwrap(); cur_dep = latest_dep; completed = false; }
+                if let Some(v) = e.strip_prefix('w') {
+                    started += 1;
+                    latest_dep = v.parse().unwrap();
+                    // the is_loading subscriber moves an odd value on before the fetch function reads it
+                    if fl && latest_dep % 2 == 1 { latest_dep += 1; }
+                    cur_dep = latest_dep;
+                    completed = false;
+                }
                 else if let Some(k) = e.strip_prefix('f') {
                     let k: u32 = k.parse().unwrap();
                     if k == started && !completed {
@@ -391,6 +411,11 @@ pub fn exec(line: &str) -> (String, Option<String>, bool) {
         let (d, evs) = r.split_once(' ').unwrap();
         let evs: Vec<String> = if evs == "-" { vec![] } else { evs.split(',').map(|s| s.to_string()).collect() };
         let (o, v) = run_resource(d.parse().unwrap(), None, &evs);
+        (o, v, evs.len() >= 2)
+    } else if let Some(r) = rest.strip_prefix("resourcefl ") {
+        let (d, evs) = r.split_once(' ').unwrap();
+        let evs: Vec<String> = if evs == "-" { vec![] } else { evs.split(',').map(|s| s.to_string()).collect() };
+        let (o, v) = run_resource_opt(d.parse().unwrap(), None, true, &evs);
         (o, v, evs.len() >= 2)
     } else if let Some(r) = rest.strip_prefix("resourcefb ") {
         let mut it = r.splitn(3, ' ');
@@ -679,6 +704,26 @@ pub fn generate(args: &Args) -> Vec<String> {
             l.push(format!("async resourcefb 7 1 {}", evs.join(",")));
         }
         l.push("async resourcefb 1 1 f1,w11,f2,f3".into());
+    }
+    // C15 with a subscriber of is_loading that writes the dependency when a load is announced (the write happens
+    // inside the start of the fetch, before the fetch function reads the dependency)
+    {
+        let alpha = ["w", "f1", "f2", "f3", "f4"];
+        let maxlen = if thorough { 6 } else { 5 };
+        let mut frontier: Vec<Vec<&str>> = vec![vec![]];
+        let mut seqs: Vec<Vec<&str>> = vec![];
+        for _ in 0..maxlen {
+            let mut next = vec![];
+            for s in &frontier { for a in alpha { let mut t = s.clone(); t.push(a); next.push(t); } }
+            seqs.extend(next.iter().cloned());
+            frontier = next;
+        }
+        for s in seqs.iter() {
+            if !s.iter().any(|e| *e == "w") { continue; }
+            let mut wv = 10; // written values alternate odd / even
+            let evs: Vec<String> = s.iter().map(|e| if *e == "w" { wv += 1; format!("w{wv}") } else { e.to_string() }).collect();
+            l.push(format!("async resourcefl 8 {}", evs.join(",")));
+        }
     }
     // C15: the resource is read under boundaries that come and go (the resource re-suspends every boundary it
     // was read under when it is fetched again)
